@@ -521,11 +521,11 @@ LEVEL_TEXT = ("Machine-checked (Coq) theorems over a bounds-checked executable m
               "Allocation pairing: proved for every sequence of the buffer-management primitives executed by any number of objects whose lives interleave "
               "(C13_pool_pairing), with the event log of padStringsToSameLength modelled event by event; observed by the recording allocator on EVERY scenario, "
               "the window closing only after all objects of the scenario (arguments, results, temporaries, the collection of split, the three objects of an "
-              "operation sequence) are destroyed. Operation sequences on shared objects: every step Ok and textbook (C13_sequence_spec).")
+              "operation sequence) are destroyed. Operation sequences on shared objects: every step Ok and textbook (C13_sequence_spec); repeat, padding, "
+              "split (loop lemmas of C12_Safe.v reused), subStringFromTill, StringFromMaskedBits and StringFromBinary return their textbook values "
+              "(C13_scn_meets_spec: every valid scenario of the check's scenario language).")
 LEVEL_NOTE = ("Partial for memory safety: the proofs are about the bounds-checked model; real heap accesses are seen only by ASan in the run. Trusted: "
               "Coq kernel, extraction (ExtrOcamlBasic), harness, generators, LP64. Modelled not verified: the C++ itself; vsnprintf's formatting is an "
-              "oracle (decimal/hex rendering is specified and compared, not derived from libc). The values of split, subStringFromTill, StringFromMaskedBits and "
-              "StringFromBinary are judged by the textbook oracle and compared with the model on the runs only (value_proved = false: no theorem that the model "
-              "of these four returns the textbook value); their allocation pairing is covered like every other operation's.")
+              "oracle (decimal/hex rendering is specified and compared, not derived from libc).")
 TECHNIQUE = "Coq proof over hand-written bounds-checked executable model + extracted-model/implementation correspondence check (differential, ASan/UBSan, recording allocator, independent reference)"
 READY = True
